@@ -36,7 +36,7 @@ RULE = (
     "later in order, E at its own instant dropping undelivered elements (elements due at exactly the error instant: either); "
     "delay_subscription = exactly one source subscription at s0+d and the source's notifications from then on (an element in "
     "the same instant as a following error may be lost); delay_with_mapper = every element exactly once at the instant its "
-    "duration observable first emits or completes (durations: never, immediate, N, C, multi-element, error; asynchronous and "
+    "duration observable first emits or completes (durations: never, immediate, N, C, multi-element; asynchronous and "
     "synchronous; optional subscription-delay observable), completion at max(source completion, last delivery), order inside "
     "one instant not judged; timestamp = (value, clock reading as datetime); time_interval = (value, time since previous "
     "element or since subscription). Non-trivial: delay: >=2 elements and some element still pending when a later notification "
@@ -48,6 +48,7 @@ ASSUMPTIONS = [
     "at an exact tie between an operator timer and a source notification either order is accepted (one order per timer and instant)",
     "the order of deliveries of different elements inside one virtual instant is not judged for delay_with_mapper",
     "sources are conforming (nothing after the first terminal)",
+    "duration / subscription-delay observables that error are not generated (the property is silent about them)",
 ]
 
 FORMS_REL = ["num", "float", "td"]
@@ -308,10 +309,10 @@ def _dwm_cases(draw, subdelay=False):
     kinds = ("cold", "cold", "sync")
     s0, spec = draw(sources(d=2, kinds=("cold", "cold", "sync"), max_len=4))
     n = nelems(spec)
-    durs = [draw(triggers(kinds=kinds, allow_error=(draw(st.integers(0, 5)) == 0))) for _ in range(n)]
+    durs = [draw(triggers(kinds=kinds)) for _ in range(n)]
     sd = None
     if subdelay:
-        sd = draw(triggers(kinds=kinds, allow_error=True))
+        sd = draw(triggers(kinds=kinds))
     return {"clock": draw(st.sampled_from(CLOCKS)), "s0": s0, "src": spec, "durs": durs, "subdelay": sd}
 
 
